@@ -55,4 +55,370 @@ theorem factories_raise_iff :
   refine ⟨new_raises_iff, fromHMSMsT_raises_iff, fromHMST_raises_iff, fromHMSN_raises_iff,
     fromNanos_raises_iff, since_raises_iff, new_error_kind⟩
 
+/-! ### accessors -/
+
+/-- the shifted forms `tdiv(n >> 13, 439453125)` and `tdiv(n >> 11, 29296875)` are plain division by an hour /
+    a minute on [0, 24h) -/
+theorem hour_shift_eq (n : Int) (h0 : 0 ≤ n) (h1 : n < NPD) : Int.tdiv (n >>> 13) 439453125 = n / NPH := by
+  c10_consts
+  rw [shr13]
+  simp (disch := decide) only [tdiv_pos]
+  split <;> omega
+
+theorem minute_shift_eq (n : Int) (h0 : 0 ≤ n) (h1 : n < NPD) : Int.tdiv (n >>> 11) 29296875 = n / NPMin := by
+  c10_consts
+  rw [shr11]
+  simp (disch := decide) only [tdiv_pos]
+  split <;> omega
+
+/-- On a valid time every accessor succeeds and together they decompose the nanosecond-of-day exactly. -/
+theorem accessors_decompose (t : LocalTime) (hv : Valid t) :
+    ∃ h m s ns : Int,
+      t.hour = .ok h ∧ t.minute = .ok m ∧ t.second = .ok s ∧ t.nanosecondOfSecond = ns ∧
+      t.millisecond = .ok (ns / 1000000) ∧ t.microsecond = .ok (ns / 1000) ∧ t.tickOfSecond = .ok (ns / 100) ∧
+      t.tickOfDay = .ok (t.nod / 100) ∧ t.nanosecondOfDay = t.nod ∧
+      t.clockHourOfHalfDay = .ok (if h % 12 = 0 then 12 else h % 12) ∧
+      t.nod = ((h * 60 + m) * 60 + s) * NPS + ns ∧
+      0 ≤ h ∧ h < 24 ∧ 0 ≤ m ∧ m < 60 ∧ 0 ≤ s ∧ s < 60 ∧ 0 ≤ ns ∧ ns < NPS := by
+  refine ⟨t.nod / NPH, t.nod / NPMin % 60, t.nod / NPS % 60, t.nod % NPS, hour_eq t hv, minute_eq t hv,
+    second_eq t hv, nanosecondOfSecond_eq t hv, ?_, ?_, ?_, ?_, rfl, clockHour_eq t hv, ?_⟩
+  · rw [millisecond_eq t hv]; simp only [Valid] at hv; c10_consts; simp only [Except.ok.injEq]; omega
+  · rw [microsecond_eq t hv]; simp only [Valid] at hv; c10_consts; simp only [Except.ok.injEq]; omega
+  · rw [tickOfSecond_eq t hv]; simp only [Valid] at hv; c10_consts; simp only [Except.ok.injEq]; omega
+  · rw [tickOfDay_eq t hv]; simp only [NPT]
+  · simp only [Valid] at hv; c10_consts; omega
+
+/-! ### LocalTime arithmetic -/
+
+/-- `plus_hours` … `plus_nanoseconds` wrap modulo 24 hours, for every integer amount. -/
+theorem addLocalTime_mod (u : TimeUnit) (t : LocalTime) (k : Int) (hv : Valid t) :
+    (u.addLocalTime t k).nod = (t.nod + k * u.nanos) % NPD := by
+  simp only [Valid] at *
+  cases u <;>
+  · simp only [addLocalTime, TimeUnit.nanos, TimeUnit.unitsPerDay]
+    c10_consts
+    simp (disch := decide) only [csharpMod_pos]
+    grind
+
+theorem addLocalTime_valid (u : TimeUnit) (t : LocalTime) (k : Int) (hv : Valid t) : Valid (u.addLocalTime t k) := by
+  have h := addLocalTime_mod u t k hv
+  simp only [Valid] at *
+  rw [h]; c10_consts; omega
+
+/-- `LocalTime + Period` (time units only) wraps the exact sum modulo 24 hours. -/
+theorem plusPeriod_time_mod (t : LocalTime) (p : TimePeriod) (hv : Valid t) :
+    (t.plusPeriod p).nod = (t.nod + p.hours * NPH + p.minutes * NPMin + p.seconds * NPS + p.milliseconds * NPMs
+      + p.ticks * NPT + p.nanoseconds) % NPD ∧ Valid (t.plusPeriod p) := by
+  unfold LocalTime.plusPeriod
+  have v1 := addLocalTime_valid .hours t p.hours hv
+  have e1 := addLocalTime_mod .hours t p.hours hv
+  have v2 := addLocalTime_valid .minutes _ p.minutes v1
+  have e2 := addLocalTime_mod .minutes _ p.minutes v1
+  have v3 := addLocalTime_valid .seconds _ p.seconds v2
+  have e3 := addLocalTime_mod .seconds _ p.seconds v2
+  have v4 := addLocalTime_valid .milliseconds _ p.milliseconds v3
+  have e4 := addLocalTime_mod .milliseconds _ p.milliseconds v3
+  have v5 := addLocalTime_valid .ticks _ p.ticks v4
+  have e5 := addLocalTime_mod .ticks _ p.ticks v4
+  have v6 := addLocalTime_valid .nanoseconds _ p.nanoseconds v5
+  have e6 := addLocalTime_mod .nanoseconds _ p.nanoseconds v5
+  refine ⟨?_, v6⟩
+  simp only [TimeUnit.nanos] at *
+  rw [e6, e5, e4, e3, e2, e1]
+  c10_consts
+  omega
+
+/-! ### addition with day carry -/
+
+/-- `_add_local_time_with_extra_days`: `t + k·unit = days·24h + t'` with `t'` a valid time. -/
+theorem addWithDays_exact (u : TimeUnit) (t t' : LocalTime) (k d : Int) (hv : Valid t)
+    (h : u.addLocalTimeWithExtraDays t k = .ok (t', d)) :
+    Valid t' ∧ t.nod + k * u.nanos = d * NPD + t'.nod := by
+  unfold addLocalTimeWithExtraDays at h
+  split at h
+  · rename_i hk; simp only [Except.ok.injEq, Prod.mk.injEq] at h; obtain ⟨rfl, rfl⟩ := h; subst hk
+    exact ⟨hv, by omega⟩
+  · split at h
+    · rename_i hk; exact pos_branch u t t' k d hv hk h
+    · rename_i hk; exact neg_branch u t t' k d hv hk h
+
+/-- inside the Decimal domain (|k| < 10^27) the step never fails -/
+theorem addWithDays_ok (u : TimeUnit) (t : LocalTime) (k : Int) (h1 : -decBound < k) (h2 : k < decBound) :
+    ∃ r, u.addLocalTimeWithExtraDays t k = .ok r := by
+  unfold addLocalTimeWithExtraDays
+  split
+  · exact ⟨_, rfl⟩
+  · split
+    · rw [splitDays_dom u _ k h1 h2]
+      exact ite_ok_exists _ _
+    · rw [splitDays_dom u _ k h1 h2]
+      exact ite_ok_exists _ _
+
+/-- beyond it the only failure is the Decimal-domain error of `_towards_zero_division` (the model says nothing
+    about the value the code produces there) -/
+theorem addWithDays_error_kind (u : TimeUnit) (t : LocalTime) (k : Int) (e : PyExc)
+    (h : u.addLocalTimeWithExtraDays t k = .error e) : e = .decimalDomain ∧ (k ≤ -decBound ∨ decBound ≤ k) := by
+  unfold addLocalTimeWithExtraDays at h
+  split at h
+  · cases h
+  · split at h
+    · cases hs : u.splitDays (decide (k ≥ u.unitsPerDay)) k with
+      | error e' =>
+        rw [hs] at h; simp only [bind, Except.bind] at h; cases h
+        exact splitDays_err _ _ _ _ hs
+      | ok dv => rw [hs] at h; exact absurd h (ite_ok_ne_error _ _ _)
+    · cases hs : u.splitDays (decide (k ≤ -u.unitsPerDay)) k with
+      | error e' =>
+        rw [hs] at h; simp only [bind, Except.bind] at h; cases h
+        exact splitDays_err _ _ _ _ hs
+      | ok dv => rw [hs] at h; exact absurd h (ite_ok_ne_error _ _ _)
+
+/-! ### LocalDateTime -/
+
+/-- `LocalDateTime.plus_<unit>(k)`: the result is exactly `k` units later on the local time line
+    (day number x 24 h + nanosecond-of-day), its time is valid and its day is inside the calendar. -/
+theorem addLocalDateTime_exact (u : TimeUnit) (r : DayRange) (l l' : LocalDateTime) (k : Int)
+    (hv : Valid l.time) (hr : InRange r l.day) (h : u.addLocalDateTime r l k = .ok l') :
+    Valid l'.time ∧ InRange r l'.day ∧
+      l.day * NPD + l.time.nod + k * u.nanos = l'.day * NPD + l'.time.nod := by
+  unfold addLocalDateTime at h
+  cases hte : u.addLocalTimeWithExtraDays l.time k with
+  | error e => rw [hte] at h; cases h
+  | ok te =>
+    obtain ⟨t', d⟩ := te
+    rw [hte] at h
+    obtain ⟨hv', hx⟩ := addWithDays_exact u l.time t' k d hv hte
+    simp only [bind, Except.bind] at h
+    by_cases hd : d = 0
+    · simp only [hd, if_true, Except.ok.injEq] at h; subst h
+      refine ⟨hv', hr, ?_⟩
+      simp only [NPD] at *; subst hd; omega
+    · simp only [hd, if_false] at h
+      cases hp : r.plusDays l.day d with
+      | error e => rw [hp] at h; cases h
+      | ok nd =>
+        rw [hp] at h
+        simp only [Except.ok.injEq] at h; subst h
+        obtain ⟨h1, h2⟩ := addFixed_ok r 1 l.day d nd hp hr
+        refine ⟨hv', h2, ?_⟩
+        simp only [NPD] at *; subst h1; omega
+
+theorem timeSteps_exact (t t' : LocalTime) (p : TimePeriod) (e : Int) (hv : Valid t)
+    (h : LocalDateTime.timeSteps t p = .ok (t', e)) :
+    Valid t' ∧ t.nod + p.hours * NPH + p.minutes * NPMin + p.seconds * NPS + p.milliseconds * NPMs
+      + p.ticks * NPT + p.nanoseconds = e * NPD + t'.nod := by
+  unfold LocalDateTime.timeSteps at h
+  obtain ⟨⟨t1, e1⟩, h1, h⟩ := bind_ok_inv _ _ _ h
+  obtain ⟨⟨t2, e2⟩, h2, h⟩ := bind_ok_inv _ _ _ h
+  obtain ⟨⟨t3, e3⟩, h3, h⟩ := bind_ok_inv _ _ _ h
+  obtain ⟨⟨t4, e4⟩, h4, h⟩ := bind_ok_inv _ _ _ h
+  obtain ⟨⟨t5, e5⟩, h5, h⟩ := bind_ok_inv _ _ _ h
+  obtain ⟨⟨t6, e6⟩, h6, h⟩ := bind_ok_inv _ _ _ h
+  simp only [Except.ok.injEq, Prod.mk.injEq] at h
+  obtain ⟨rfl, rfl⟩ := h
+  obtain ⟨v1, x1⟩ := addWithDays_exact _ _ _ _ _ hv h1
+  obtain ⟨v2, x2⟩ := addWithDays_exact _ _ _ _ _ v1 h2
+  obtain ⟨v3, x3⟩ := addWithDays_exact _ _ _ _ _ v2 h3
+  obtain ⟨v4, x4⟩ := addWithDays_exact _ _ _ _ _ v3 h4
+  obtain ⟨v5, x5⟩ := addWithDays_exact _ _ _ _ _ v4 h5
+  obtain ⟨v6, x6⟩ := addWithDays_exact _ _ _ _ _ v5 h6
+  refine ⟨v6, ?_⟩
+  simp only [TimeUnit.nanos] at *
+  c10_consts
+  omega
+
+/-- `plus(Period)`: weeks, days and all time units are added exactly, with the carry into the day number
+    (`d1` is the day reached after the years and months, C09). -/
+theorem plusPeriod_exact (r : DayRange) (l l' : LocalDateTime) (d1 : Int) (p : TimePeriod)
+    (hv : Valid l.time) (hd1 : InRange r d1) (h : LocalDateTime.plusPeriod r l d1 p = .ok l') :
+    Valid l'.time ∧ InRange r l'.day ∧
+      (d1 + 7 * p.weeks + p.days) * NPD + l.time.nod + p.hours * NPH + p.minutes * NPMin + p.seconds * NPS
+        + p.milliseconds * NPMs + p.ticks * NPT + p.nanoseconds = l'.day * NPD + l'.time.nod := by
+  unfold LocalDateTime.plusPeriod at h
+  obtain ⟨⟨t', e⟩, hts, h⟩ := bind_ok_inv _ _ _ h
+  obtain ⟨dw, hw, h⟩ := bind_ok_inv _ _ _ h
+  obtain ⟨dd, hd, h⟩ := bind_ok_inv _ _ _ h
+  simp only [Except.ok.injEq] at h; subst h
+  obtain ⟨vt, xt⟩ := timeSteps_exact _ _ _ _ hv hts
+  obtain ⟨ew, rw'⟩ := addFixed_ok r 7 d1 p.weeks dw hw hd1
+  obtain ⟨ed, rd⟩ := addFixed_ok r 1 dw (p.days + e) dd hd rw'
+  refine ⟨vt, rd, ?_⟩
+  simp only at *
+  c10_consts
+  omega
+
+/-- Inside the Decimal domain `plus_<unit>` raises exactly when the day of the exact result is outside the
+    calendar, and then OverflowError or ValueError. -/
+theorem addLocalDateTime_raises_iff (u : TimeUnit) (r : DayRange) (l : LocalDateTime) (k : Int)
+    (hv : Valid l.time) (hr : InRange r l.day) (h1 : -decBound < k) (h2 : k < decBound) :
+    ((∃ e, u.addLocalDateTime r l k = .error e) ↔
+        ¬ InRange r ((l.day * NPD + l.time.nod + k * u.nanos) / NPD)) ∧
+    (∀ e, u.addLocalDateTime r l k = .error e → e = .overflowError ∨ e = .valueError) := by
+  obtain ⟨⟨t', d⟩, hte⟩ := addWithDays_ok u l.time k h1 h2
+  obtain ⟨hv', hx⟩ := addWithDays_exact u l.time t' k d hv hte
+  have hq : (l.day * NPD + l.time.nod + k * u.nanos) / NPD = l.day + d := by
+    simp only [Valid, NPD] at *; omega
+  rw [hq]
+  unfold addLocalDateTime
+  rw [hte]
+  simp only [bind, Except.bind]
+  by_cases hd : d = 0
+  · simp only [hd, if_true]
+    constructor
+    · constructor
+      · rintro ⟨e, he⟩; cases he
+      · intro hn; exact absurd (by simpa using hr) hn
+    · intro e he; cases he
+  · simp only [hd, if_false]
+    cases hp : r.plusDays l.day d with
+    | error e =>
+      obtain ⟨hnr, hk⟩ := addFixed_err r 1 l.day d e hp
+      simp only [Int.mul_one] at hnr
+      constructor
+      · constructor
+        · intro _; exact hnr
+        · intro _; exact ⟨e, rfl⟩
+      · intro e' he'; simp only [Except.error.injEq] at he'; subst he'; exact hk
+    | ok nd =>
+      obtain ⟨hnd, hin⟩ := addFixed_ok r 1 l.day d nd hp hr
+      simp only [Int.mul_one] at hnd
+      constructor
+      · constructor
+        · rintro ⟨e, he⟩; cases he
+        · intro hn; subst hnd; exact absurd hin hn
+      · intro e he; cases he
+
+/-- the documented meaning of `plus(Period)` after the years and months: weeks, days, then each time unit in
+    turn, every step a complete LocalDateTime operation with its own carry and range check -/
+def seqPlus (r : DayRange) (l : LocalDateTime) (d1 : Int) (p : TimePeriod) : R LocalDateTime := do
+  let a ← r.plusWeeks d1 p.weeks
+  let b ← r.plusDays a p.days
+  let l1 ← TimeUnit.hours.addLocalDateTime r ⟨b, l.time⟩ p.hours
+  let l2 ← TimeUnit.minutes.addLocalDateTime r l1 p.minutes
+  let l3 ← TimeUnit.seconds.addLocalDateTime r l2 p.seconds
+  let l4 ← TimeUnit.milliseconds.addLocalDateTime r l3 p.milliseconds
+  let l5 ← TimeUnit.ticks.addLocalDateTime r l4 p.ticks
+  TimeUnit.nanoseconds.addLocalDateTime r l5 p.nanoseconds
+
+theorem addLocalDateTime_ok_inv (u : TimeUnit) (r : DayRange) (l l' : LocalDateTime) (k : Int)
+    (hr : InRange r l.day) (h : u.addLocalDateTime r l k = .ok l') :
+    ∃ d, u.addLocalTimeWithExtraDays l.time k = .ok (l'.time, d) ∧ l'.day = l.day + d ∧ InRange r l'.day := by
+  unfold addLocalDateTime at h
+  obtain ⟨⟨t', d⟩, hte, h⟩ := bind_ok_inv _ _ _ h
+  obtain ⟨nd, hnd, h⟩ := bind_ok_inv _ _ _ h
+  simp only [Except.ok.injEq] at h; subst h
+  refine ⟨d, hte, ?_⟩
+  simp only at hnd ⊢
+  by_cases hd : d = 0
+  · simp only [hd, if_true, Except.ok.injEq] at hnd; subst hnd; subst hd
+    exact ⟨by omega, hr⟩
+  · simp only [hd, if_false] at hnd
+    obtain ⟨h1, h2⟩ := addFixed_ok r 1 l.day d nd hnd hr
+    exact ⟨by omega, h2⟩
+
+/-- Order of application: whenever adding the units one after the other (weeks, days, hours, …, nanoseconds, each a
+    complete LocalDateTime operation) succeeds, `plus(Period)` returns the same value.  (The converse fails only
+    where an intermediate date leaves the calendar and a later unit brings it back: `plus` folds the day carry of
+    the time units into the single `plus_days` call.) -/
+theorem plusPeriod_order (r : DayRange) (l x : LocalDateTime) (d1 : Int) (p : TimePeriod)
+    (hd1 : InRange r d1) (h : seqPlus r l d1 p = .ok x) : LocalDateTime.plusPeriod r l d1 p = .ok x := by
+  unfold seqPlus at h
+  obtain ⟨a, ha, h⟩ := bind_ok_inv _ _ _ h
+  obtain ⟨b, hb, h⟩ := bind_ok_inv _ _ _ h
+  obtain ⟨l1, h1, h⟩ := bind_ok_inv _ _ _ h
+  obtain ⟨l2, h2, h⟩ := bind_ok_inv _ _ _ h
+  obtain ⟨l3, h3, h⟩ := bind_ok_inv _ _ _ h
+  obtain ⟨l4, h4, h⟩ := bind_ok_inv _ _ _ h
+  obtain ⟨l5, h5, h6⟩ := bind_ok_inv _ _ _ h
+  obtain ⟨ea, ra⟩ := addFixed_ok r 7 d1 p.weeks a ha hd1
+  obtain ⟨eb, rb⟩ := addFixed_ok r 1 a p.days b hb ra
+  obtain ⟨e1, s1, q1, r1⟩ := addLocalDateTime_ok_inv _ r _ l1 _ rb h1
+  obtain ⟨e2, s2, q2, r2⟩ := addLocalDateTime_ok_inv _ r _ l2 _ r1 h2
+  obtain ⟨e3, s3, q3, r3⟩ := addLocalDateTime_ok_inv _ r _ l3 _ r2 h3
+  obtain ⟨e4, s4, q4, r4⟩ := addLocalDateTime_ok_inv _ r _ l4 _ r3 h4
+  obtain ⟨e5, s5, q5, r5⟩ := addLocalDateTime_ok_inv _ r _ l5 _ r4 h5
+  obtain ⟨e6, s6, q6, r6⟩ := addLocalDateTime_ok_inv _ r _ x _ r5 h6
+  simp only at s1 q1
+  have hts : LocalDateTime.timeSteps l.time p = .ok (x.time, e1 + e2 + e3 + e4 + e5 + e6) := by
+    unfold LocalDateTime.timeSteps
+    simp only [s1, s2, s3, s4, s5, s6, bind, Except.bind]
+  unfold LocalDateTime.plusPeriod
+  rw [hts]
+  simp only [bind, Except.bind]
+  rw [ha]
+  simp only
+  have hday : x.day = a + (p.days + (e1 + e2 + e3 + e4 + e5 + e6)) * 1 := by omega
+  have := addFixed_inRange r 1 a (p.days + (e1 + e2 + e3 + e4 + e5 + e6)) ra (by rw [← hday]; exact r6)
+  unfold DayRange.plusDays
+  rw [this, ← hday]
+
+/-! ### units between, comparison, invariant -/
+
+theorem pyTdiv_ok_inv (x y q : Int) (h : pyTdiv x y = .ok q) : q = Int.tdiv x y := by
+  unfold pyTdiv at h
+  split at h
+  · split at h <;> cases h
+  · split at h
+    · simp only [Except.ok.injEq] at h; exact h.symm
+    · cases h
+
+theorem ctor_ok_inv (d n : Int) (x : Duration) (h : Duration.ctor d n = .ok x) : x = ⟨d, n⟩ := by
+  unfold Duration.ctor at h
+  split at h
+  · cases h
+  · simp only [Except.ok.injEq] at h; exact h.symm
+
+theorem sub_toNanos (a b d : Duration) (h : Duration.sub a b = .ok d) : d.toNanos = a.toNanos - b.toNanos := by
+  unfold Duration.sub at h
+  simp only at h
+  split at h <;>
+  · have := ctor_ok_inv _ _ _ h
+    subst this
+    simp only [Duration.toNanos, NPD]; omega
+
+/-- `Period.between(start, end, <one time unit>)`: the difference on the local time line, truncated toward zero. -/
+theorem unitsBetween_trunc (u : TimeUnit) (s e : LocalDateTime) (q : Int) (h : u.unitsBetween s e = .ok q) :
+    q = Int.tdiv ((e.day - s.day) * NPD + e.time.nod - s.time.nod) u.nanos := by
+  unfold unitsBetween at h
+  obtain ⟨a, ha, h⟩ := bind_ok_inv _ _ _ h
+  obtain ⟨b, hb, h⟩ := bind_ok_inv _ _ _ h
+  obtain ⟨d, hd, h⟩ := bind_ok_inv _ _ _ h
+  have hq := pyTdiv_ok_inv _ _ _ h
+  have := sub_toNanos _ _ _ hd
+  have ea := ctor_ok_inv _ _ _ ha
+  have eb := ctor_ok_inv _ _ _ hb
+  subst ea; subst eb
+  rw [hq, this]
+  simp only [Duration.toNanos, NPD]
+  congr 1
+  omega
+
+theorem compare_iff (a b : LocalTime) :
+    (a.lt b = true ↔ a.nod < b.nod) ∧ (a.le b = true ↔ a.nod ≤ b.nod) ∧ (a.gt b = true ↔ a.nod > b.nod) ∧
+    (a.ge b = true ↔ a.nod ≥ b.nod) ∧ (a.beq b = true ↔ a = b) ∧
+    (a.compareTo b < 0 ↔ a.nod < b.nod) ∧ (a.compareTo b = 0 ↔ a = b) := by
+  cases a; cases b
+  simp only [LocalTime.lt, LocalTime.le, LocalTime.gt, LocalTime.ge, LocalTime.beq, LocalTime.compareTo,
+    decide_eq_true_eq, LocalTime.mk.injEq]
+  refine ⟨trivial, trivial, trivial, trivial, trivial, ?_, ?_⟩ <;> constructor <;> intro h <;> omega
+
+/-- every operation that returns a time returns one inside [0, 24h) -/
+theorem localTime_inv :
+    (∀ (u : TimeUnit) t k, Valid t → Valid (u.addLocalTime t k)) ∧
+    (∀ (t : LocalTime) p, Valid t → Valid (t.plusPeriod p)) ∧
+    (∀ (u : TimeUnit) t k t' d, Valid t → u.addLocalTimeWithExtraDays t k = .ok (t', d) → Valid t') ∧
+    (∀ (u : TimeUnit) r l k l', Valid l.time → InRange r l.day → u.addLocalDateTime r l k = .ok l' → Valid l'.time) ∧
+    (∀ r l d1 p l', Valid l.time → InRange r d1 → LocalDateTime.plusPeriod r l d1 p = .ok l' → Valid l'.time) := by
+  refine ⟨addLocalTime_valid, fun t p hv => (plusPeriod_time_mod t p hv).2,
+    fun u t k t' d hv h => (addWithDays_exact u t t' k d hv h).1,
+    fun u r l k l' hv hr h => (addLocalDateTime_exact u r l l' k hv hr h).1,
+    fun r l d1 p l' hv hr h => (plusPeriod_exact r l l' d1 p hv hr h).1⟩
+
+/-! satisfiability of the hypotheses on concrete, non-trivial values -/
+example : TimeUnit.hours.addLocalDateTime ⟨-4371222, 2932896⟩ ⟨2932896, ⟨82800000000000⟩⟩ 1 = .error .overflowError := by decide
+example : TimeUnit.minutes.addLocalDateTime ⟨-4371222, 2932896⟩ ⟨0, ⟨0⟩⟩ (-1441) = .ok ⟨-2, ⟨86340000000000⟩⟩ := by decide
+example : (TimeUnit.hours.addLocalTime ⟨3600000000000⟩ (-25)).nod = 0 := by decide
+example : LocalDateTime.plusPeriod ⟨-4371222, 2932896⟩ ⟨0, ⟨0⟩⟩ 0 ⟨1, 1, 25, 0, 0, 0, 0, -1⟩ = .ok ⟨9, ⟨3599999999999⟩⟩ := by decide
+example : seqPlus ⟨-4371222, 2932896⟩ ⟨0, ⟨0⟩⟩ 0 ⟨1, 1, 25, 0, 0, 0, 0, -1⟩ = .ok ⟨9, ⟨3599999999999⟩⟩ := by decide
+
 end Pyoda.C10
